@@ -132,6 +132,25 @@ fn check_order(ctx: &mut Ctx, o: &VarOrder, n: usize, what: &str, info: &Value) 
             }
         }
         if bad.is_none() {
+            for lvl in 0..n {
+                let v = o.var_at_level(lvl);
+                let above = if lvl == 0 { None } else { Some(o.var_at_level(lvl - 1)) };
+                let below = if lvl + 1 == n { None } else { Some(o.var_at_level(lvl + 1)) };
+                if o.above(v) != above || o.below(v) != below {
+                    bad = Some(format!("above/below of the variable at level {}", lvl));
+                }
+            }
+            if n > 0 && o.last_var() != o.var_at_level(n - 1) {
+                bad = Some("last_var".into());
+            }
+            let rev: Vec<usize> = o.reverse_in_order_iter().map(|x| x.value_usize()).collect();
+            let mut fwd: Vec<usize> = o.in_order_iter().map(|x| x.value_usize()).collect();
+            fwd.reverse();
+            if rev != fwd {
+                bad = Some("reverse_in_order_iter".into());
+            }
+        }
+        if bad.is_none() {
             let it: Vec<usize> = o.in_order_iter().map(|x| x.value_usize()).collect();
             if it != order_to_perm(o) {
                 bad = Some("in_order_iter disagrees with var_at_level".into());
